@@ -250,6 +250,7 @@ type g16ProofObs struct {
 	W          []*big.Int
 	Ar, Bs, Kr *big.Int   // expected scalars
 	D          []*big.Int // expected commitment scalars
+	CV         [][]*big.Int // privately committed values per commitment, in basis order
 	Ar0        *big.Int   // unblinded alpha + A·w
 	errs       []string
 }
@@ -296,6 +297,7 @@ func (run *g16Run) prove(w witness.Witness) (*g16ProofObs, error) {
 	}
 	priv := new(big.Int)
 	o.D = make([]*big.Int, len(run.pc))
+	o.CV = make([][]*big.Int, len(run.pc))
 	for j := range o.D {
 		o.D[j] = new(big.Int)
 	}
@@ -307,6 +309,7 @@ func (run *g16Run) prove(w witness.Witness) (*g16ProofObs, error) {
 		}
 		if j, ok := pcOf[i]; ok {
 			o.D[j] = addq(o.D[j], mulq(o.W[i], run.ckK[j][cki[j]]))
+			o.CV[j] = append(o.CV[j], o.W[i])
 			cki[j]++
 			continue
 		}
